@@ -2,7 +2,11 @@
 Real `EtherCat.roundtrip` is run with a stub send queue that records the queued datagram and
 completes the future with a scripted response; payload and returned tuple (or exception class) are
 compared with the Lean model `Ebv.Roundtrip`, and the property text is evaluated with
-`struct.pack`/`struct.unpack_from` as reference, group by group at its own offset."""
+`struct.pack`/`struct.unpack_from` as reference, group by group at its own offset.
+A second family (`wire`) sends the requests, alone and several at once, through the real pipeline — `connect()` /
+`connection_made()` (only the datagram endpoint is stubbed), asyncio.Queue, `sendloop`, `Packet.append/assemble`,
+`roundtrip_packet`, `process_packet`, `datagram_received` — against a bus that walks the frames independently; payload
+sizes sit at the edges of what one Ethernet frame can carry (1472 bytes), reached in every way a request can grow."""
 import asyncio
 import struct
 
@@ -14,19 +18,29 @@ THEOREMS = [
     "Ebv.C13.encode_layout", "Ebv.C13.encode_general", "Ebv.C13.encode_length", "Ebv.C13.fullFmt_eq",
     "Ebv.C13.packAll_append", "Ebv.C13.decode_encode", "Ebv.C13.decode_echo", "Ebv.C13.unpack_pack",
     "Ebv.C13.echoAll_noStr", "Ebv.C13.decode_raw_only", "Ebv.C13.raw_tail", "Ebv.C13.raw_tail_empty",
+    "Ebv.C13.sendable_iff", "Ebv.C13.sendable_iff_le", "Ebv.C13.wire_boundary", "Ebv.C13.wire_sent",
+    "Ebv.C13.wire_overflow_iff", "Ebv.C13.wire_echo", "Ebv.C13.wireAll_independent",
 ]
 TRUSTED = ["hand-written model Ebv.Roundtrip of the payload/response handling in EtherCat.roundtrip, tied by exact "
            "payload/result correspondence",
            "struct.pack/unpack for '<' formats over b B h H i I q Q x s modelled in Ebv.Roundtrip (range/count/type errors, "
            "Ns padding/truncation, exact buffer length), validated against the real struct module through roundtrip itself",
-           "harness/vh/props/c13.py stub queue; format strings are rendered from the tokenised items the model receives"]
+           "harness/vh/props/c13.py stub queue; format strings are rendered from the tokenised items the model receives",
+           "wire family: stub datagram endpoint + independent frame walker in c13.py; that concurrent requests do not disturb "
+           "each other is C12's theorem (the model decides every request of a batch by itself: wireAll_independent)",
+           "Packet limits MAXSIZE/PACKET_HEADER/DATAGRAM_HEADER/DATAGRAM_TAIL regenerated into Ebv.Generated.Consts; the oracle's "
+           "1472 = 1500 (Ethernet payload) - 16 (identifying datagram) - 12 (datagram overhead) is written down independently"]
 ASSUMPTIONS = ["format strings are sequences of complete items [count]code over b B h H i I q Q x s; values are ints or bytes",
-               "the response is delivered by completing the queued future (send loop and bus are C12's subject)",
+               "stub-queue family: the response is delivered by completing the queued future; wire family: every datagram is "
+               "answered (working counter 1) with an echo or scripted bytes of the request's length, frames are not lost",
                "host-independent: all formats are prefixed with '<' by roundtrip itself"]
 RULE = ("case = argument list (0..4 format strings of 1..3 items with their values interleaved, or all formats first; optional "
         "trailing read-only format; values at range boundaries; a few invalid: out of range, missing/extra/wrong-type value) x "
         "data in {absent, None, b'', bytes 1..12, 0, n, negative} x response in {echo, overwritten same length, wrong length}; "
-        "non-trivial = at least one format or raw data and a payload was queued")
+        "non-trivial = at least one format or raw data and a payload was queued; wire: batches of 1..32 such requests submitted "
+        "together through the real send loop, payloads of 1471/1472/1473 bytes reached by raw bytes, a raw count, a trailing Nx/Ns/NB/"
+        "run of H, an Ns value or a run of H values, also 0/1/17..19 (padding edge), 2047..2049, pairs and k equal requests that fill "
+        "one frame exactly or miss it by one, 14..32 small requests (datagram count limit)")
 
 SIZES = {"b": 1, "B": 1, "h": 2, "H": 2, "i": 4, "I": 4, "q": 8, "Q": 8}
 _LOOP = None
@@ -188,6 +202,168 @@ def oracle(ctx, case, obs):
             "raw-tail" if data is not None and case["args"] and got[:-1] == want[:-1] else "decode")
 
 
+
+# ---------------------------------------------------------------- the wire family
+# The same requests, submitted together (gather) to a real EtherCat object that was connected by its own
+# `connect()` / `connection_made()` (only the datagram endpoint is an environment stub): real asyncio.Queue, real
+# sendloop, Packet.append/assemble, roundtrip_packet, process_packet, datagram_received.  The bus is an independent
+# frame parser that answers every datagram (working counter 1) with an echo or the scripted bytes of the request
+# carrying the datagram's idx.
+
+ETH_PAYLOAD = 1500                  # declared: the largest payload of an Ethernet frame
+ID_DATAGRAM = 2 + 10 + 2 + 2        # EtherCAT header + the identifying datagram (header, 2 data bytes, counter)
+DGRAM_OVERHEAD = 10 + 2             # datagram header + working counter
+WIRE_MAX = ETH_PAYLOAD - ID_DATAGRAM - DGRAM_OVERHEAD      # 1472: the largest payload one frame can carry
+
+
+def walk_frame(data):
+    """independent walk over an EtherCAT frame -> [(cmd, idx, pos, off, start, stop)] without the identifying datagram"""
+    out, p, first = [], 2, True
+    while True:
+        cmd, idx, pos, off, lf = struct.unpack_from("<BBhHH", data, p)
+        start, stop = p + 10, p + 10 + (lf & 0x7ff)
+        if not first:
+            out.append((cmd, idx, pos, off, start, stop))
+        first = False
+        p = stop + 2
+        if not lf >> 15:
+            return out
+
+
+class _Sock:
+    def bind(self, addr):
+        pass
+
+
+class Bus:
+    def __init__(self, loop, resp_by_idx):
+        self._sock, self.loop, self.resp, self.frames, self.seen, self.proto = _Sock(), loop, resp_by_idx, [], {}, None
+
+    def sendto(self, data, addr):
+        data = bytes(data)
+        self.frames.append(data)
+        ans = bytearray(data)
+        try:
+            for cmd, idx, pos, off, start, stop in walk_frame(data):
+                self.seen.setdefault(idx, []).append((cmd, data[start:stop], pos, off))
+                r = self.resp.get(idx)
+                if r is not None and len(r) == stop - start:
+                    ans[start:stop] = r
+                ans[stop:stop + 2] = b"\x01\x00"
+        except struct.error:
+            self.seen.setdefault("garbled", []).append(data)
+        self.loop.call_soon(self.proto.datagram_received, bytes(ans), addr)
+
+
+def run_wire(case):
+    """-> (canonical line, [obs per request])"""
+    global _LOOP
+    from ebpfcat.ethercat import EtherCat, ECCmd
+    if _LOOP is None:
+        _LOOP = asyncio.new_event_loop()
+    loop, reqs = _LOOP, case["batch"]
+    bus = Bus(loop, {r["idx"]: bytes.fromhex(r["resp"]) for r in reqs if r.get("resp") is not None})
+
+    async def endpoint(factory, **kw):
+        bus.proto = factory()
+        bus.proto.connection_made(bus)
+        return bus, bus.proto
+
+    async def one(ec, r):
+        kw = {"idx": r["idx"]}
+        if not r.get("nodata"):
+            kw["data"] = py_data(r)
+        obs = {"ret": None, "exc": None}
+        try:
+            obs["ret"] = await asyncio.wait_for(ec.roundtrip(ECCmd(r.get("cmd", 4)), r.get("pos", 0), r.get("offset", 0),
+                                                             *py_args(r), **kw), 5)
+        except struct.error:
+            obs["exc"] = "struct-error"
+        except OverflowError:
+            obs["exc"] = "overflow"
+        except asyncio.TimeoutError:
+            obs["exc"] = "other:no-answer"
+        except Exception as e:      # noqa: BLE001 - canonicalised
+            obs["exc"] = "other:" + type(e).__name__
+        return obs
+
+    async def go():
+        ec = EtherCat("lo")
+        await ec.connect()
+        try:
+            return await asyncio.gather(*[one(ec, r) for r in reqs])
+        finally:
+            for t in asyncio.all_tasks():
+                if t is not asyncio.current_task():
+                    t.cancel()
+
+    loop.create_datagram_endpoint = endpoint
+    try:
+        allobs = loop.run_until_complete(go())
+        loop.run_until_complete(asyncio.sleep(0))
+    finally:
+        del loop.create_datagram_endpoint
+    lines = []
+    for r, obs in zip(reqs, allobs):
+        obs["wire"] = bus.seen.get(r["idx"], [])
+        obs["frames"] = [len(f) for f in bus.frames]
+        obs["garbled"] = len(bus.seen.get("garbled", []))
+        if not obs["wire"]:
+            lines.append(obs["exc"] or "nothing-sent")
+            continue
+        line = "out=" + obs["wire"][0][1].hex() + " | "
+        data = py_data(r)
+        if obs["exc"]:
+            line += obs["exc"]
+        elif data is None:
+            line += "t:" + ",".join(show_val(v) for v in obs["ret"])
+        elif r["args"]:
+            line += "t:" + ",".join(show_val(v) for v in obs["ret"][:-1]) + ";raw=" + bytes(obs["ret"][-1]).hex()
+        else:
+            line += "raw:" + bytes(obs["ret"]).hex()
+        lines.append(line)
+    return " || ".join(lines), allobs
+
+
+def oracle_wire(ctx, case, allobs):
+    """the property text per request of the batch, on what the bus saw and what the caller got"""
+    for k, (r, obs) in enumerate(zip(case["batch"], allobs)):
+        if "groups" not in r:
+            continue
+        def req(cond, what, cls=None):
+            return ctx.require(cond, f"request {k} of the batch: " + what, case,
+                               {"request": k, "on-wire": [(c, d.hex(), p, o) for c, d, p, o in obs["wire"]], "frames": obs["frames"],
+                                "ret": repr(obs["ret"])[:400], "exc": obs["exc"]}, cls)
+        ref = reference(r)
+        if ref is None:
+            req(not obs["wire"] and obs["exc"] == "struct-error", "values that struct.pack refuses were not refused", "refuse")
+            continue
+        payload, layout, nraw = ref
+        data = py_data(r)
+        if len(payload) > WIRE_MAX or (isinstance(data, int) and data < 0):
+            continue        # no single Ethernet frame can carry it / negative count: outside the property
+        req(obs["garbled"] == 0 and all(n <= ETH_PAYLOAD for n in obs["frames"]), "a frame on the wire is malformed or too long", "frame")
+        if not req(len(obs["wire"]) == 1, f"a request of {len(payload)} payload bytes (a frame can carry {WIRE_MAX}) must be on the wire "
+                   "exactly once", "wire-sent"):
+            continue
+        cmd, out, pos, off = obs["wire"][0]
+        req(out == payload, "datagram data on the wire is not enc(values) ++ zeros(trailing format) ++ raw data", "payload")
+        want_pos = r.get("pos", 0)
+        req((cmd, pos, off) == (r.get("cmd", 4), want_pos, r.get("offset", 0)), "cmd/pos/offset not passed through to the wire", "passthrough")
+        resp = out if r.get("resp") is None else bytes.fromhex(r["resp"])
+        if len(resp) != len(payload):
+            continue
+        fields = []
+        for f, o, vals in layout:
+            fields.extend(struct.unpack_from(f, resp, o))
+        tail = resp[len(resp) - nraw:] if nraw else b""
+        want = tuple(fields) if data is None else (tuple(fields) + (tail,) if r["args"] else resp)
+        if not req(obs["exc"] is None, f"roundtrip raised {obs['exc']} although the terminal answered", "wire-decode"):
+            continue
+        got = obs["ret"]
+        got = bytes(got) if isinstance(got, (bytes, bytearray)) else tuple(bytes(x) if isinstance(x, (bytes, bytearray)) else x for x in got)
+        req(got == want, "returned fields are not the response decoded at the same offsets (+ the trailing raw bytes)", "wire-decode")
+
 # ---------------------------------------------------------------- generators
 
 def gen_int(rng, code, bad=False):
@@ -295,6 +471,108 @@ def gen(rng):
     return case
 
 
+
+def fill_to(rng, target):
+    """one grouped request whose payload has `target` bytes if that can be arranged: a small random head, the rest supplied by
+    one of the five ways a request can grow (raw bytes, raw count, trailing Nx / Ns / NB, an Ns value, a run of integers)"""
+    for _ in range(20):
+        ngroups = rng.choice([0, 0, 1, 1, 2])
+        groups = []
+        for _g in range(ngroups):
+            items = [gen_item(rng) for _ in range(rng.choice([1, 1, 2]))]
+            groups.append({"f": items, "v": gen_values(rng, items)})
+        head = sum(c * SIZES.get(k, 1) for g in groups for c, k, _ in g["f"])
+        rest = target - head
+        if rest >= 0:
+            break
+    else:
+        groups, rest = [], target
+    r = {"groups": groups, "trail": None, "data": None}
+    how = rng.choice(["bytes", "bytes", "count", "trail-x", "trail-s", "trail-B", "val-s", "val-ints", "trail-ints"])
+    if how in ("val-ints", "trail-ints") and rest % 2:
+        how = "bytes"
+    if how == "bytes" or (rest == 0 and rng.random() < 0.5):
+        r["data"] = {"b": bytes(rng.randrange(256) for _ in range(rest)).hex()}
+    elif how == "count":
+        r["data"] = {"n": rest}
+    elif how.startswith("trail-"):
+        k = how[6:]
+        r["trail"] = [[rest // 2, "H", 1]] if k == "ints" else [[rest, k, 1]]
+        if rng.random() < 0.3:
+            r["data"] = rng.choice([{"b": ""}, {"n": 0}])
+    elif how == "val-s":
+        groups.append({"f": [[rest, "s", 1]], "v": [{"b": bytes(rng.randrange(256) for _ in range(rest)).hex()}]})
+    else:
+        groups.append({"f": [[rest // 2, "H", 1]], "v": [{"i": rng.randrange(65536)} for _ in range(rest // 2)]})
+    if r["data"] is None and rng.random() < 0.5:
+        r["nodata"] = 1
+    args = []
+    for g in groups:
+        args.append({"f": g["f"]})
+        args.extend(g["v"])
+    if r["trail"] is not None:
+        args.append({"f": r["trail"]})
+    r["args"] = args
+    return r
+
+
+def gen_wire(rng):
+    """a batch of requests submitted together; sizes at the edges of one frame, alone and shared"""
+    shape = rng.choice(["edge", "edge", "edge", "small", "pair", "many", "fill", "mixed"])
+    edges = [WIRE_MAX, WIRE_MAX, WIRE_MAX - 1, WIRE_MAX + 1, WIRE_MAX - 2, WIRE_MAX + 2, WIRE_MAX + 20, 2047, 2048, 2049,
+             0, 1, 17, 18, 19, 1000]
+    if shape == "edge":
+        sizes = [rng.choice(edges)]
+    elif shape == "small":
+        sizes = [rng.randrange(0, 40) for _ in range(rng.choice([1, 2, 3]))]
+    elif shape == "pair":           # two requests that fill one frame exactly, or miss it by one
+        a = rng.randrange(0, WIRE_MAX - DGRAM_OVERHEAD + 1)
+        sizes = [a, WIRE_MAX - DGRAM_OVERHEAD - a + rng.choice([-1, 0, 0, 1])]
+    elif shape == "many":           # around the number of datagrams one frame takes
+        sizes = [rng.randrange(0, 12) for _ in range(rng.choice([14, 15, 16, 17, 30, 31, 32]))]
+    elif shape == "fill":           # k equal requests whose frame is exactly / almost full
+        k = rng.choice([2, 3, 4, 7])
+        each, left = divmod(WIRE_MAX + DGRAM_OVERHEAD - k * DGRAM_OVERHEAD, k)
+        sizes = [each] * (k - 1) + [each + left + rng.choice([-1, 0, 0, 1])]
+    else:
+        sizes = [rng.choice(edges + [rng.randrange(0, 1600)]) for _ in range(rng.choice([2, 3, 5]))]
+    sizes = [max(s, 0) for s in sizes]
+    batch = []
+    idxs = rng.sample(range(256), len(sizes))
+    for n, idx in zip(sizes, idxs):
+        r = fill_to(rng, n)
+        r["idx"] = idx
+        if rng.random() < 0.5:
+            r.update(cmd=rng.choice([1, 2, 4, 5, 7, 8]), pos=rng.choice([0, -3, 7, 1000, 30000]),
+                     offset=rng.choice([0, 0x10, 0x120, 0x130, 0x502, 0x800]))
+        if rng.random() < 0.4:
+            r["resp"] = bytes(rng.randrange(256) for _ in range(n)).hex()
+        batch.append(r)
+    return {"wire": 1, "batch": batch}
+
+
+def fixed_wire():
+    """every way to reach the largest payload exactly, one below and one above, alone on the bus"""
+    out = []
+    for n in (WIRE_MAX - 1, WIRE_MAX, WIRE_MAX + 1):
+        H = [1, "H", 0]
+        g = {"f": [H], "v": [{"i": 0xa55a}]}
+        variants = [
+            {"args": [], "groups": [], "trail": None, "data": {"n": n}},
+            {"args": [], "groups": [], "trail": None, "data": {"b": (b"\x5a" * n).hex()}},
+            {"args": [{"f": [[n, "x", 1]]}], "groups": [], "trail": [[n, "x", 1]], "data": None},
+            {"args": [{"f": [[n, "B", 1]]}], "groups": [], "trail": [[n, "B", 1]], "data": None, "nodata": 1},
+            {"args": [{"f": [H]}, {"i": 0xa55a}], "groups": [g], "trail": None, "data": {"n": n - 2}},
+            {"args": [{"f": [H]}, {"i": 0xa55a}, {"f": [H]}], "groups": [g], "trail": [H], "data": {"b": (b"\xc3" * (n - 4)).hex()}},
+            {"args": [{"f": [[n, "s", 1]]}, {"b": (b"\x77" * n).hex()}], "groups": [{"f": [[n, "s", 1]], "v": [{"b": (b"\x77" * n).hex()}]}],
+             "trail": None, "data": None},
+        ]
+        for i, v in enumerate(variants):
+            v["idx"] = i
+            out.append({"wire": 1, "batch": [v]})
+    return out
+
+
 def fixed_cases():
     """the calls the library itself makes, and every single code with/without data in every data shape"""
     out = []
@@ -324,6 +602,18 @@ def fixed_cases():
 def check_cases(ctx, cases):
     impl = []
     for c in cases:
+        if "batch" in c:
+            line, allobs = run_wire(c)
+            impl.append(line)
+            sizes = [len(ref[0]) if ref else None for ref in (reference(r) for r in c["batch"])]
+            edge = any(n is not None and WIRE_MAX - 1 <= n <= WIRE_MAX + 1 for n in sizes)
+            ctx.case(c, nontrivial=any(o["wire"] for o in allobs), kind="wire:" + ("edge" if edge else "inside") +
+                     ("+shared" if len(c["batch"]) > 1 else ""))
+            for n, o in zip(sizes, allobs):
+                ctx.stats["wire:" + ("refused" if n is None else "too-long" if n > WIRE_MAX else "largest" if n == WIRE_MAX else "fits")] += 1
+            ctx.stats["wire:frames"] += len(allobs[0]["frames"]) if allobs else 0
+            oracle_wire(ctx, c, allobs)
+            continue
         line, obs = run_impl(c)
         impl.append(line)
         d = c.get("data")
@@ -336,18 +626,23 @@ def check_cases(ctx, cases):
     model = ctx.drive(DRIVER, cases, "roundtrip")
     if model is not None:
         for c, i, m in zip(cases, impl, model):
-            ctx.agree("roundtrip payload and result", c, i, m)
+            ctx.agree("roundtrip payload and result" + (" over the wire" if "batch" in c else ""), c, i, m)
 
 
 def run(ctx):
     assert struct.pack("<H", 1) == b"\x01\x00"
-    cases = fixed_cases() + [gen(ctx.rng) for _ in range(ctx.n(8000, 250000))]
+    cases = fixed_cases() + fixed_wire() + [gen_wire(ctx.rng) for _ in range(ctx.n(400, 6000))] + \
+        [gen(ctx.rng) for _ in range(ctx.n(8000, 250000))]
     step = 20000
     for i in range(0, len(cases), step):
         check_cases(ctx, cases[i:i + step])
 
 
 def replay(ctx, case):
+    if "batch" in case:
+        line, allobs = run_wire(case)
+        oracle_wire(ctx, case, allobs)
+        return {"impl": line}
     line, obs = run_impl(case)
     oracle(ctx, case, obs)
     return {"impl": line}
@@ -357,7 +652,9 @@ LEVEL_TEXT = ("Lean 4 proof over a hand-written model of roundtrip's payload/res
               "format/value groups with an optional trailing read-only format and any raw data (bytes of any length incl. empty, "
               "or a count incl. 0) the payload is enc(values) ++ zeros ++ raw; for every response of the request's length the "
               "fields are decoded group by group from their own offsets and the returned tail is exactly the last len(data) "
-              "bytes; an echoing bus returns the values sent. Tied to /repo by exact payload/result correspondence.")
+              "bytes; an echoing bus returns the values sent; a request reaches the bus iff its payload is at most MAXSIZE - 28 = 1472 bytes "
+              "(a frame of exactly MAXSIZE included) and then returns the decoding of its own response. Tied to /repo by exact "
+              "payload/result correspondence, on the stub queue and through the real send loop.")
 LEVEL_NOTE = ("trusted: Lean kernel + propext/Classical.choice/Quot.sound; hand transcription Ebv.Roundtrip (incl. its model of "
               "struct.pack/unpack) validated (not verified) by differential runs of the real roundtrip; responses of a different "
               "length than the request and negative counts are modelled and compared but outside the property")
